@@ -4,7 +4,7 @@
    Full statement of the property on the model of the expression fragment:
      forall e, exists fuel, parse_expr fuel (impl e) = Some e
    It is FALSE of the faithful model (C08_impl_roundtrip_refuted); what is proved is the statement
-   outside the decidable class Known_C08 (= a needed parenthesis is omitted = K1, K2 or K3 node). *)
+   outside the decidable class Known_C08 (= a needed parenthesis is omitted = K1, K2, K3 or K6 node). *)
 From Coq Require Import List Arith Bool NArith ZArith String.
 Import ListNotations.
 From SV Require Import C08.Syntax C08.Model C08.Proofs C08.ProofsImpl C08.Layout C08.LayoutProofs C08.Lit C08.LitProofs.
@@ -30,7 +30,7 @@ Theorem C08_impl_roundtrip_refuted : exists e, forall fuel, parse_expr fuel (imp
 Proof. exact impl_roundtrip_refuted. Qed.
 
 (* the class is exactly "some node omits a parenthesis the grammar needs", and that is exactly
-   "some node is K1, K2 or K3" *)
+   "some node is K1, K2, K3 or K6" (known_C08 is defined as the latter) *)
 Theorem C08_known_class_exact : forall e, safe e = negb (known_C08 e).
 Proof. exact safe_known. Qed.
 
@@ -48,6 +48,10 @@ Proof. exact K2_witness. Qed.
 Theorem C08_K3_witness : known_C08 (Bin Syntax.Concat (Bin Plus xa xb) xc) = true /\ k3 (Bin Syntax.Concat (Bin Plus xa xb) xc) = true /\
   parse_expr 60 (impl (Bin Syntax.Concat (Bin Plus xa xb) xc)) = Some (Bin Plus xa (Bin Syntax.Concat xb xc)).
 Proof. exact K3_witness. Qed.
+
+Theorem C08_K6_witness : known_C08 (Bin Lt (Field xa 1) xb) = true /\ k6 (Bin Lt (Field xa 1) xb) = true /\
+  forall fuel, parse_expr fuel (impl (Bin Lt (Field xa 1) xb)) = None.
+Proof. exact K6_witness. Qed.
 
 (* the parser's answer does not depend on the fuel *)
 Theorem C08_parse_fuel_independent : forall f1 f2 ts a b,
@@ -117,6 +121,7 @@ Print Assumptions C08_agree_prints_reference.
 Print Assumptions C08_K1_witness.
 Print Assumptions C08_K2_witness.
 Print Assumptions C08_K3_witness.
+Print Assumptions C08_K6_witness.
 Print Assumptions C08_parse_fuel_independent.
 Print Assumptions C08_layout_preserves_tokens.
 Print Assumptions C08_layout_width_independent.
